@@ -313,9 +313,72 @@ def safe_division_symbolic(R):
          time.time() - t0, '; '.join((bad or unk)[:3]) or f'{n} verification conditions over {len(kinds)}^2 kind pairs', bad[:6] or None, replay=replay)
 
 
+def dtype_cases(seed=0):
+    """'for every input' includes whole-number data held in integer arrays (a grid described with ints has integer coordinate
+    arrays, and fields built from them stay integer): every quantity of the real AurelCore must equal the one obtained from the
+    same data in float64.  -> list of discrepancies, number of keys compared"""
+    import warnings
+    import numpy as np
+    import aurel
+    import aurel.core as Cm
+    N = 12
+    par = dict(Nx=N, Ny=N, Nz=N, xmin=-6, ymin=-5, zmin=-6, dx=1, dy=1, dz=1)
+    bad, ncmp = [], 0
+    with warnings.catch_warnings():
+        warnings.simplefilter('ignore')
+        for kw in (dict(boundary='no boundary', fd_order=4), dict(boundary='periodic', fd_order=6)):
+            fdi = aurel.FiniteDifference(dict(par), verbose=False, **kw)
+            fdf = aurel.FiniteDifference({k: (float(v) if not k.startswith('N') else v) for k, v in par.items()}, verbose=False, **kw)
+
+            def mk(fd, cast):
+                rel = aurel.AurelCore(fd, verbose=False)
+                x, y, z = fd.x, fd.y, fd.z
+                one = np.ones_like(x)
+                ins = dict(gammadown3=np.array([[40 + x * x, y, 0 * one], [y, 50 + z * z, x], [0 * one, x, 60 + y * y]]),
+                           Kdown3=np.array([[x, 0 * one, z], [0 * one, 2 * one, 0 * one], [z, 0 * one, 3 * y]]),
+                           alpha=2 + x * x, betaup3=np.array([x, z, 2 * one]), rho0=3 + y * y, press=1 + z * z, eps=2 * one)
+                for k, v in ins.items():
+                    rel.data[k] = cast(v)
+                rel.freeze_data()
+                return rel
+            ri = mk(fdi, lambda v: np.asarray(v).astype(np.int64))
+            rf = mk(fdf, lambda v: np.asarray(v, dtype=float))
+            for k in [k for k in Cm.descriptions if hasattr(Cm.AurelCore, k)]:
+                out = []
+                for rel in (ri, rf):
+                    try:
+                        out.append(rel[k])
+                    except Exception as e:
+                        out.append(RuntimeError(f'{type(e).__name__}: {str(e)[:80]}'))
+                ra, rb = (isinstance(o, RuntimeError) for o in out)
+                if ra or rb:
+                    if ra != rb:
+                        bad.append(f'{k} [{kw["boundary"]}]: {"raises " + str(out[0]) if ra else "returns"} for integer arrays, {"raises " + str(out[1]) if rb else "returns"} for float arrays')
+                    continue
+                try:
+                    a, b = np.asarray(out[0], dtype=complex), np.asarray(out[1], dtype=complex)
+                except (TypeError, ValueError):
+                    continue
+                ncmp += 1
+                if a.shape != b.shape or not np.allclose(a, b, rtol=1e-9, atol=1e-9, equal_nan=True):
+                    bad.append(f'{k} [{kw["boundary"]}]: integer-array inputs give a different value than the same data in float64'
+                               + ('' if a.shape != b.shape else f' (max |difference| {np.nanmax(np.abs(a - b)):.3g})'))
+    return bad, ncmp
+
+
+def dtype_obligation(R):
+    t0 = time.time()
+    bad, ncmp = dtype_cases()
+    R.bounded.append(dict(function='aurel.core.AurelCore (every catalogue key)', bound='one 12^3 grid, 2 boundary / order settings, integer-valued fields as int64 vs float64'))
+    R.ob('core.*:whole-number inputs held in integer arrays give the same value as the same inputs in float64 (every key)', '__getitem__',
+         'refuted' if bad else ('bounded-ok' if ncmp else 'undecided'), 'bounded-native', time.time() - t0, '; '.join(bad[:4]) or f'{ncmp} key evaluations compared',
+         bad[:6] or None, bounded='12^3 grid, 2 settings', replay=lambda o: (lambda b: (bool(b[0]), '; '.join(b[0][:4]) or 'no difference'))(dtype_cases()))
+
+
 def run(R):
     from engine.canary import run_canaries
     run_canaries(R, ('e1', 'symx'))
+    dtype_obligation(R)
     W = Worlds(R.seed)
     npts = 1 if R.tier == 'quick' else 3
     R.assume('A1', 'A2', 'A5', 'A6', 'A7', 'A8')
